@@ -1,0 +1,96 @@
+//go:build verif
+
+// Contracts for the deductive verifier in /verif (comment-only; compiled only with -tags verif).
+
+package jsonclient
+
+// The back-off object behind the backoffer interface is the *backoff verified below.
+//@ func (github.com/google/certificate-transparency-go/jsonclient.backoffer).set
+//@ assumed
+//@ pure
+//@ note interface method; (*backoff).set is verified against its own (stronger) contract
+
+//@ func (github.com/google/certificate-transparency-go/jsonclient.backoffer).until
+//@ assumed
+//@ pure
+
+//@ func (github.com/google/certificate-transparency-go/jsonclient.backoffer).decreaseMultiplier
+//@ assumed
+//@ pure
+
+//@ func (*backoff).set
+//@ props C13
+//@ site time.Now#1 as n1
+//@ site time.Now#2 as n2
+//@ site time.Now#3 as n3
+//@ site After#1 as a1
+//@ site After#2 as a2
+//@ requires b != nil && b.multiplier <= 8
+//@ modifies b.multiplier, b.notBefore
+//@ ensures [multiplier-stays-capped] b.multiplier <= 8
+//@ ensures [in-backoff-iff-not-before-is-in-the-future] a1.res == (instant(old(b.notBefore)) > instant(n1.res))
+//@ ensures [server-pacing-while-backing-off] a1.res && override != nil ==> instant(b.notBefore) >= instant(n2.res) + mathint(old(*override)) && instant(b.notBefore) >= instant(old(b.notBefore))
+//@ ensures [never-extended-without-server-request] a1.res && override == nil ==> b.notBefore == old(b.notBefore) && b.multiplier == old(b.multiplier)
+//@ ensures [server-pacing-when-idle] !a1.res && override != nil ==> result == old(*override) && instant(b.notBefore) == instant(n3.res) + mathint(old(*override)) && b.multiplier == old(b.multiplier)
+//@ ensures [exponential-wait-capped-at-128s] !a1.res && override == nil ==> 1 <= b.multiplier && b.multiplier <= 8 && result == 1000000000 << (b.multiplier - 1) && result <= 128000000000 && instant(b.notBefore) == instant(n3.res) + mathint(result)
+//@ ensures [multiplier-grows-by-one-up-to-cap] !a1.res && override == nil ==> b.multiplier == (old(b.multiplier) < 8 ? old(b.multiplier) + 1 : 8)
+
+//@ func (*backoff).decreaseMultiplier
+//@ props C13
+//@ requires b != nil && b.multiplier <= 8
+//@ modifies b.multiplier
+//@ ensures [one-step-down-not-below-zero] b.multiplier == (old(b.multiplier) > 0 ? old(b.multiplier) - 1 : 0) && b.multiplier <= 8
+
+//@ func (*backoff).until
+//@ props C13
+//@ pure
+//@ requires b != nil
+//@ ensures [returns-not-before] result == b.notBefore
+
+//@ func (*JSONClient).waitForBackoff
+//@ props C13
+//@ site until#1 as u
+//@ site rand.Intn#1 as ri
+//@ site Add#1 as ad
+//@ site time.Until#1 as tu
+//@ site time.NewTimer#1 as nt
+//@ site Err#1 as ce
+//@ requires c != nil && ctx != nil && c.backoff != nil
+//@ ensures [jitter-below-250ms] ri.called && ri.n == 250 && 0 <= ri.res && ri.res < 250
+//@ ensures [waits-until-not-before-plus-jitter] ad.called && ad.t == u.res && ad.d == 1000000 * int64(ri.res) && tu.t == ad.res
+//@ ensures [timer-never-negative] nt.called && (tu.res < 0 ? nt.d == 0 : nt.d == tu.res)
+//@ ensures [context-error-only-when-context-ended] result != nil ==> ce.called && result == ce.res
+
+//@ func (*JSONClient).PostAndParse
+//@ props C13 C12
+//@ site ctxhttp.Do#1 as do
+//@ site json.Unmarshal#1 as ju
+//@ requires c != nil && c.httpClient != nil
+//@ ensures [success-is-a-post-response-parsed-if-200] result2 == nil ==> do.called && result0 == do.res0 && result0 != nil && after(do, do.res0.Request.Method) == "POST" && (after(do, do.res0.StatusCode) == 200 ==> ju.called && ju.res == nil)
+//@ ensures [caller-view] result2 == nil ==> result0 != nil
+//@ ensures [unparsable-200-is-an-error-with-status-and-body] ju.called && ju.res != nil ==> result2 != nil && typeof(result2) == RspError && result0 == nil
+//@ ensures [error-results-are-nil] result2 != nil ==> result0 == nil && result1 == nil
+
+//@ func (*JSONClient).PostAndParseWithRetry
+//@ props C13
+//@ stable c
+//@ site PostAndParse#1 as pp
+//@ site set#1 as s1
+//@ site set#2 as s2
+//@ site strconv.Atoi#1 as at
+//@ site time.Parse#1 as tp
+//@ site time.Until#1 as tu
+//@ site waitForBackoff#1 as wb
+//@ site Get#1 as hg
+//@ let status = after(pp, pp.res0.StatusCode)
+//@ requires c != nil && c.logger != nil && c.backoff != nil && c.httpClient != nil
+//@ ensures [returns-the-200-response-of-this-attempt] result2 == nil ==> pp.called && pp.res2 == nil && status == 200 && result0 == pp.res0 && result1 == pp.res1
+//@ ensures [non-retryable-status-returned-at-once-with-status-and-body] typeof(result2) == RspError && pp.called && pp.res2 == nil && !wb.called ==> as(result2, RspError).StatusCode == status && as(result2, RspError).Body == pp.res1 && status != 200 && status != 408 && status != 429 && status != 503
+//@ at s1 assert [transport-or-parse-error-backs-off-without-override] pp.res2 != nil && s1.arg0 == nil
+//@ at s2 assert [only-429-and-503-use-server-pacing] pp.res2 == nil && (status == 429 || status == 503)
+//@ at s2 assert [retry-after-seconds-honoured-exactly] at.called && at.res1 == nil ==> s2.arg0 != nil && wide(*s2.arg0) == wide(at.res0) * 1000000000
+//@ at s2 assert [retry-after-date-honoured] at.called && at.res1 != nil && tp.called && tp.res1 == nil ==> s2.arg0 != nil && *s2.arg0 == tu.res
+//@ at s2 assert [no-retry-after-no-override] hg.res == "" || (at.res1 != nil && tp.res1 != nil) ==> s2.arg0 == nil
+//@ at wb assert [retry-only-after-retryable-outcomes] pp.res2 != nil || status == 408 || status == 429 || status == 503
+//@ at wb assert [408-retries-without-touching-the-backoff] pp.res2 == nil && status == 408 ==> !s1.called && !s2.called
+//@ at wb assert [context-errors-are-not-retried] pp.res2 != nil ==> pp.res2 != context.Canceled && pp.res2 != context.DeadlineExceeded
